@@ -171,7 +171,7 @@ def plan(tier, seed):
         kw = dict(label=cfg.label, cfg=cfg, alphabet="alphabet", depth=depth, oracles={"result", "resource", "ctxerr"},
                   hooks="probe", extra={"second_write": tier != "quick" or shape == "obj"})
         if n == 3:
-            kw["max_transitions"] = 400000
+            kw["max_transitions"] = 50000
         tasks += seqcheck.split(4 if n == 2 else 24, **kw)
     return tasks
 
